@@ -42,6 +42,7 @@ RULE = (
     "non-trivial = the run used a cache and performed at least one insertion; distinct by hash of (instance, seed, setting)"
 )
 LEVEL_TEXT += ' The real mchap assemble was run under --mcmc-llk-cache-threshold -1, 0, small, 100, large and 10^6, without and with tempering (list and per-sample file): identical records; DenovoMCMC and PedigreeCallingMCMC objects fitted a second time on other reads behave as fresh objects.'
+LEVEL_TEXT += ' Session 4: a quarter of the assemble trace runs use loci of 33-160 SNVs; the call-cache monitor also runs pooled ploidies 8-12 over 70-400 haplotypes (sampler state, single-allele neighbours, random genotypes).'
 ASSUMPTIONS = ["a flushed arraymap may forget values (miss), it may never return a wrong one", "states with zero likelihood are not visited"]
 
 
